@@ -42,6 +42,26 @@ theorem fragment_gap_between_eq (a b : Fragment) :
   unfold Fragment.gapBetween Gen.K.Fragment_gap_between
   by_cases h : a.name = b.name <;> simp [h]
 
+/-- `Fragment.junction_tuple`: all four strand cases, the two `sorted(...)` calls (Python's order on `(name, coordinate)` pairs is
+    `endLe`; `reverse=True` is the stable descending order) and the `ValueError` for strand 0 -/
+theorem junction_tuple_eq (a b : Fragment) :
+    junctionTuple a b = Gen.K.Fragment_junction_tuple (self_name := a.name) (self_start := a.start) (self_end := a.stop)
+      (self_strand := a.strand) (othr_name := b.name) (othr_start := b.start) (othr_end := b.stop) (othr_strand := b.strand) := by
+  unfold junctionTuple Gen.K.Fragment_junction_tuple
+  by_cases h1 : a.strand = 1
+  · by_cases h2 : b.strand = 1
+    · simp [h1, h2]
+    · by_cases h3 : b.strand = -1
+      · by_cases h4 : endLe (a.name, a.stop) (b.name, b.stop) = true <;> simp [h1, h3, h4]
+      · simp [h1, h2, h3]
+  · by_cases h1' : a.strand = -1
+    · by_cases h2 : b.strand = 1
+      · by_cases h4 : endLe (b.name, b.start) (a.name, a.start) = true <;> simp [h1', h2, h4]
+      · by_cases h3 : b.strand = -1
+        · simp [h1', h3]
+        · simp [h1', h2, h3]
+    · simp [h1, h1']
+
 /-! ## overlap_result.py -/
 
 theorem overlap_length_eq (o : OverlapResult) :
